@@ -112,8 +112,10 @@ template <int DIM, int ORDER> struct Cfg {
         // Deriv enum overloads
         if (k <= 6) { Deriv dv = (Deriv)k; int h = -1; Vec e1 = pp.evaluate(t, dv), e2 = pp.evaluate(t, &h, dv), e3 = pp[piece].evaluate(t - b[piece], dv); auto e4 = pp.evaluate(std::vector<double>{t}, dv);
           ++c.st.comparisons;
-          if (!same(e1, plain) || !same(e2, plain) || !same(e3, plain) || e4.size() != 1 || !same(e4[0], plain)) { fail("deriv-enum", fmt("t=%.17g k=%d", t, k)); return false; } }
-        if (k == 0) { Vec d0 = pp.evaluate(t); int h = 0; Vec d1 = pp.evaluate(t, &h); ++c.st.comparisons; if (!same(d0, plain) || !same(d1, plain)) { fail("default-deriv", fmt("t=%.17g", t)); return false; } }
+          if (!same(e1, plain) || !same(e2, plain) || !same(e3, plain) || e4.size() != 1 || !same(e4[0], plain)) { fail("deriv-enum", fmt("t=%.17g k=%d", t, k)); return false; }
+          if (k < nc && h != piece) { fail("hint-update(Deriv overload)", fmt("t=%.17g k=%d: hinted Deriv overload leaves the hint at %d, piece used is %d", t, k, h, piece)); return false; }
+          for (int h0 : {n - 1, 0}) { int hh = h0; (void)pp.evaluate(t, &hh, dv); ++c.st.comparisons; if (k < nc && hh != piece) { fail("hint-update(Deriv overload)", fmt("t=%.17g k=%d hint %d -> %d, piece used is %d", t, k, h0, hh, piece)); return false; } } }
+        if (k == 0) { Vec d0 = pp.evaluate(t); int h = n - 1; Vec d1 = pp.evaluate(t, &h); ++c.st.comparisons; if (!same(d0, plain) || !same(d1, plain) || h != piece) { fail("default-deriv", fmt("t=%.17g: value or hint (%d, piece %d) wrong for the defaulted Deriv argument", t, h, piece)); return false; } }
         // derivative trajectories: derivative(j).evaluate(t, k-j) for every j <= k
         for (int j = 0; j <= k; ++j) {
           Vec dv = der[j].evaluate(t, k - j);
